@@ -117,6 +117,7 @@ def build_binary(cfg, kind):
 # T1: extraction -> Generated.lean
 # ---------------------------------------------------------------------------------------
 EXTRACT_NOTE = {}
+LAST_DUMPS = {}
 
 def extraction(full=False, allow_plain=False):
     """Runs the extractor of both charset builds and rewrites RdsModel/Generated.lean if its
@@ -144,6 +145,7 @@ def extraction(full=False, allow_plain=False):
         outs[cfg] = r.stdout
     du = genlean.parse_dump(outs["u"])
     dn = genlean.parse_dump(outs["n"])
+    LAST_DUMPS["u"], LAST_DUMPS["n"] = du, dn
     text = genlean.render(du, dn)
     path = os.path.join(LEAN, "RdsModel", "Generated.lean")
     with Lock("lake"):
